@@ -3,7 +3,8 @@
    survival of templates through the dump (with C10: the dump is a race-free snapshot; C11: the file
    loads back to the same cache), and — stated, not hidden — the hazard the code leaves to timing. *)
 From VF Require Import Base.Prelude Model.Shutdown Model.Flow Model.Cache Model.CacheFile
-  Proofs.CacheProofs Proofs.CacheFileProofs Proofs.ShutdownProofs.
+  Model.TimedShutdown Proofs.CacheProofs Proofs.CacheFileProofs Proofs.ShutdownProofs Proofs.TimedShutdownProofs.
+From VF Require Gen.Timing.
 
 (* the dump happens after the stop flag is set and before the receive channel is closed; main returns
    only after the receive loop has ended and the dump and close have happened *)
@@ -31,3 +32,29 @@ Print Assumptions C15_presence_monotone.
 Theorem C15_send_after_close_hazard : exists s, sreach s /\ send_on_closed s = true.
 Proof. exact send_after_close_reachable. Qed.
 Print Assumptions C15_send_after_close_hazard.
+
+(* ... and WITH the two durations the code uses, the hazard is excluded: the read deadline D and the grace sleep G of
+   every pipeline are regenerated from vflow/<proto>.go (Gen/Timing.v); the timed model is safe exactly when D <= G *)
+Theorem C15_timed_no_send_after_close : forall D G, 0 < G -> D <= G -> forall s, treach D G s -> tviol s = false.
+Proof. exact timed_safe. Qed.
+Print Assumptions C15_timed_no_send_after_close.
+
+Theorem C15_longer_deadline_panics : forall D G, 0 <= G -> G < D -> exists s, treach D G s /\ tviol s = true.
+Proof. exact timed_hazard. Qed.
+Print Assumptions C15_longer_deadline_panics.
+
+Theorem C15_deadlines_within_grace : forall p D G, In (p, D, G) Gen.Timing.timing -> 0 < G /\ D <= G.
+Proof.
+  assert (H : forallb (fun x => (0 <? snd x) && (snd (fst x) <=? snd x)) Gen.Timing.timing = true) by (vm_compute; reflexivity).
+  intros p D G Hin. rewrite forallb_forall in H. specialize (H _ Hin). cbn [fst snd] in H. lia.
+Qed.
+Print Assumptions C15_deadlines_within_grace.
+
+(* the step order the shutdown models assume is the program order of shutdown(): stop, sleep, [dump,] close *)
+Theorem C15_shutdown_program_order : forall p o, In (p, o) Gen.Timing.shutdown_order ->
+  o = ["stop"; "sleep"; "dump"; "close"]%string \/ o = ["stop"; "sleep"; "close"]%string.
+Proof.
+  intros p o Hin. unfold Gen.Timing.shutdown_order in Hin. cbn [In] in Hin.
+  repeat (destruct Hin as [Hin|Hin]; [injection Hin as _ <-; auto|]). contradiction.
+Qed.
+Print Assumptions C15_shutdown_program_order.
